@@ -797,6 +797,28 @@ def correspond(ctx):
                 rep.violation("unpinned:leak:" + fn, "%s leaves %s jansson block(s) allocated after everything was released" % (fn, m.group(1)), {"case": c[:3000], "implementation": o[:300]})
     st["evaluations"] += len(np_cases)
     st["dist"]["calls repeated without the harness' pins"] = len(np_cases)
+    # members of several MEGABYTES (12 Mi characters: more than a thread's stack): signature, encrypted_key, tag, iv, the key's
+    # own members -- a buffer sized by such a member must come from the heap (or be refused), never from the stack
+    huge = "A" * (12 << 20)
+    hcases, seen_h = [], set()
+    for fn, args, extra, tag in T:
+        if fn not in ("jose_jws_ver", "jose_jws_ver_io", "jose_jwe_dec", "jose_jwe_dec_jwk", "jose_jwe_dec_io") or ":" in tag.split(":", 2)[-1] and tag.count(":") > 2:
+            continue
+        a0 = args[0]
+        if not isinstance(a0, dict):
+            continue
+        for m in ("signature", "encrypted_key", "tag", "iv"):
+            if isinstance(a0.get(m), str) and (fn, tag.split(":")[1] if ":" in tag else tag, m) not in seen_h:
+                seen_h.add((fn, tag.split(":")[1] if ":" in tag else tag, m))
+                hcases.append((line(fn, [dict(a0, **{m: huge})] + list(args[1:]), extra), fn, tag, m))
+    hcases = hcases[:40] if ctx["tier"] == "quick" else hcases
+    for (c, fn, tag, m), o in zip(hcases, vlib.run_cases(hbin, [x[0] for x in hcases], env_extra=env_extra, timeout_case=120)):
+        if o.startswith("CRASH"):
+            mm = re.search(r"SAN \w+ ([\w-]+)", o)
+            rep.violation("huge-member:%s:%s:%s" % (mm.group(1) if mm else "crash", fn, m),
+                          "%s (%s) with a \"%s\" member of 12 Mi characters: %s" % (fn, tag, m, o[:300]), {"case": c[:300] + " ... (member %s = 12582912 x 'A')" % m, "implementation": o[:600]})
+    st["evaluations"] += len(hcases)
+    st["dist"]["calls with a member of 12 Mi characters"] = len(hcases)
     # valid templates must be valid: a refused valid call means the generator (not the library) is wrong
     bad = [c for c in cases if info[c][1] == "valid" and info[c][0] not in ("jose_b64_dec", "jose_b64_dec_load", "jose_b64_enc_dump", "jose_jwk_prm", "jose_jwk_eql", "zip_in_protected_header")
            and "V=fail" in RAW.get(c, "")]
